@@ -15,13 +15,13 @@ CHECKS = {
  'C04': ('model_checking', 'TLC checks invocation counts per (node, kwargs) against the reference semantics on every recorded execution', '7 C04'),
  'C05': ('model_checking', 'TLC compares the returned/raised outcome with the admissible root-cause set of the reference semantics; exception identity kept by the harness', '7 C05'),
  'C06': ('model_checking', 'quiescent-state clause (all shallower nodes finished => node started) checked by TLC at every quiescent point of recorded executions with gates withheld', '7 C06'),
- 'C07': ('model_checking', 'sequences of runs on one chart; TLC compares each run with a fresh-chart run and graph/input/class snapshots before and after', '7 C07'),
- 'C08': ('model_checking', 'overlapping runs on one loop under random interleavings; TLC compares each run with its solo outcome', '7 C08'),
+ 'C07': ('model_checking', 'sequences of runs on one chart: Engine2.tla (product of run managers on one loop, next run started after the previous returned while its tasks still unwind) explored by TLC and replayed transition by transition on the real engine; TLC compares each recorded run with a fresh-chart run and graph/input/class snapshots before and after', '7 C07, 11.3'),
+ 'C08': ('model_checking', 'overlapping runs on one loop: Engine2.tla with StartRun at every step boundary explored by TLC (SoloOutcome, NoStuck2) and replayed on the real engine; seeded random interleavings of 2-3 runs; TLC compares each recorded run with its solo outcome', '7 C08, 11.3'),
  'C09': ('model_checking', 'switch programs (nested/shared/concurrent/unknown label): invocation-set membership (routing, laziness), stuck clause', '7 C09'),
  'C10': ('model_checking', 'one-of programs (nested/sibling/chained, failing subsets, None/falsy): invocation-set membership, outcome, containment clauses', '7 C10'),
  'C11': ('model_checking', 'recurrent programs: per-epoch invocation sets with additional_data tokens from the TLA+ semantics; bound, default, exhaustion', '7 C11'),
  'C12': ('model_checking', 'retry/default grid: attempt counts, identical kwargs, virtual-time delay, default calls checked by TLC per recorded execution', '7 C12'),
- 'C13': ('model_checking', 'cancellation injected at every action index under several schedules; drain without caller action; TLC checks leftover tasks and late activity', '7 C13'),
+ 'C13': ('model_checking', 'CancelRun enabled at every state of the Engine.tla instance (also with suspending collaborators): every cancel edge replayed on the real engine, then drained without caller action and judged by TLC at level O (leftover tasks, late activity, CancelledError only); plus cancellation at every action index of seeded schedules', '7 C13, 11.3'),
  'C14': ('model_checking', 'lifecycle-event automaton per node/run evaluated by TLC on the merged recorded history', '7 C14'),
  'C19': ('model_checking', 'recording store; TLC checks exactly-one save per produced node value and no marker/failure saves at run return', '7 C19'),
 }
@@ -48,7 +48,7 @@ for pid, (cat, text, ref) in CHECKS.items():
         'engine': 'tla-level-o',
         'level_claimed': {'category': cat, 'text': text, 'design_ref': 'DESIGN.md section ' + ref},
         'level_note': RUNTIME_NOTE,
-        'technique': 'TLA+ specification (Dataflow.tla/ObsTrace.tla) checked by TLC against traces recorded from the real engine on a controlled event loop',
+        'technique': 'TLC model checking of the implementation-shaped TLA+ model Engine.tla (all schedules per instance) bound to the code by replaying every model transition on the real engine; TLC trace validation of the recorded executions against ObsTrace.tla / Dataflow.tla',
     })
 for pid, (cat, text, ref, tech, eng) in SIDE.items():
     checks.append({
@@ -71,7 +71,8 @@ m = {
            'enable': 'no in-repo hooks: the harness observes the engine through DAG.run_manager, recording collaborators and a virtual event loop',
            'baseline_off_cmd': 'cd /repo && /venv/bin/python -m pytest -ra -q -p no:cacheprovider --timeout=900 --continue-on-collection-errors',
            'source_commits': [], 'add_only': True},
- 'engines': [{'name': 'tla-builder', 'path': '/verif/spec/Builder.tla', 'serves_properties': ['C15', 'C16'], 'kind_free_text': 'declarative graph + worklist machine (BuilderMachine.tla), BuilderTrace.tla for real build results'},
+ 'engines': [{'name': 'tla-engine', 'path': '/verif/spec/Engine.tla', 'serves_properties': sorted(set(CHECKS)), 'kind_free_text': 'implementation-shaped model of DAGRunConcurrentManager + asyncio substrate (Engine2.tla: several runs on one loop); state graph exported by TLC and replayed on the real engine (harness/replay.py)'},
+             {'name': 'tla-builder', 'path': '/verif/spec/Builder.tla', 'serves_properties': ['C15', 'C16'], 'kind_free_text': 'declarative graph + worklist machine (BuilderMachine.tla), BuilderTrace.tla for real build results'},
              {'name': 'tla-artifact-store', 'path': '/verif/spec/ArtifactStore.tla', 'serves_properties': ['C18'], 'kind_free_text': 'write-once map state machine + ArtifactStoreTrace.tla'},
              {'name': 'tla-viewer', 'path': '/verif/spec/Viewer.tla', 'serves_properties': ['C20'], 'kind_free_text': 'expected viewer configuration + ViewerTrace.tla'},
              {'name': 'tla-level-o', 'path': '/verif/spec/ObsTrace.tla', 'serves_properties': sorted(set(CHECKS) | {'C17'}),
